@@ -80,6 +80,15 @@ class FnAnalysis:
                                         val2 = getattr(n2, "value", None)
                                         vn = list(n2.args) if isinstance(n2, ast.Call) else ([val2] if val2 is not None else [])
                                         call_events.append(("write", cell, vn, n2, mode == "inplace", []))
+                                    # writer calls inside the closure (self.set_used_chains(saved)): the values are the
+                                    # closure's captured names, which live in this scope
+                                    for n2 in walk_stmt(st2):
+                                        if isinstance(n2, ast.Call):
+                                            cells2, cands2, how2 = self.eff.call_writes(c, n2)
+                                            if cands2 and all(c2.is_contextmanager() for c2 in cands2):
+                                                continue
+                                            for cell2 in sorted(cells2):
+                                                call_events.append(("write", cell2, list(n2.args) + [k.value for k in n2.keywords], n2, False, cands2))
                             continue
                         # a call that only creates a @contextmanager object has no effect by
                         # itself; its effects are modelled at the with-statement
